@@ -15,9 +15,9 @@ var deadlines = []time.Duration{50 * time.Millisecond, 0, 2 * time.Second}
 
 func init() {
 	vexplore.Register("C18", func(tier string) []*vexplore.Scenario {
-		b := 0
+		b := 1
 		if tier == "thorough" {
-			b = 1
+			b = 2
 		}
 		return []*vexplore.Scenario{
 			{Name: "recv-deadline", Mode: "enum", Bound: b, Reset: kit.ResetGlobals, Body: func() { recvDeadline(false) },
